@@ -18,15 +18,16 @@ def validate_traces(ctx, files, spec="Trace_LRU", workers=8):
     """Run the trace spec over each file; returns list of (file, reject_line or None, events)."""
     def one(f):
         # constants are written out per trace file (an override "Keys <- TraceKeys" is re-evaluated at every use)
-        keys, vals, caps = set(), set(), set()
+        keys, vals, caps, procs = set(), set(), set(), set()
         for e in common.read_ndjson(f):
-            keys.add(e["k"]); vals.add(e["v"]); caps.add(e["cap"])
-        keys.discard("none"); vals.discard("none")
+            keys.add(e["k"]); vals.add(e["v"]); caps.add(e["cap"]); procs.add(e.get("p", "none"))
+        keys.discard("none"); vals.discard("none"); procs.discard("none")
         cfgname = spec + "-" + os.path.basename(f).replace(".", "_")
         q = lambda xs: "{" + ", ".join('"%s"' % x for x in sorted(xs)) + "}"
         base = open(os.path.join(ctx.spec_dir(), spec + ".cfg")).read()
         base = base.replace("Keys <- TraceKeys", "Keys = " + q(keys or {"k1"})).replace("Vals <- TraceVals", "Vals = " + q(vals or {"v1"}))
         base = base.replace("Caps <- TraceCaps", "Caps = {" + ", ".join(str(c) for c in sorted(caps)) + "}")
+        base = base.replace("Procs <- TraceProcs", "Procs = " + q(procs or {"p1"}))
         open(os.path.join(ctx.spec_dir(), cfgname + ".cfg"), "w").write(base)
         res = ctx.tlc(spec, cfgname, workers=1, env={"TRACE": f}, tag=cfgname, expect_ok=False,
                       timeout=3600, count=True)
